@@ -10,7 +10,6 @@ import (
 )
 
 type (
-	WaitGroup = sync.WaitGroup
 	Once      = sync.Once
 	Cond      = sync.Cond
 	Map       = sync.Map
@@ -100,3 +99,57 @@ type rlocker struct{ m *RWMutex }
 
 func (r rlocker) Lock()   { r.m.RLock() }
 func (r rlocker) Unlock() { r.m.RUnlock() }
+
+// WaitGroup: inside a simulation Wait is a scheduler event (enabled when the counter is zero),
+// so the waiter resumes only when the driver says so and never runs concurrently with the
+// goroutine that released it.
+type WaitGroup struct {
+	real sync.WaitGroup
+	mu   sync.Mutex
+	n    int
+}
+
+func (wg *WaitGroup) Add(delta int) {
+	if s := simrt.InSim(); s != nil {
+		wg.mu.Lock()
+		wg.n += delta
+		n := wg.n
+		wg.mu.Unlock()
+		if n < 0 {
+			panic("sync: negative WaitGroup counter")
+		}
+		if n == 0 {
+			s.Poke()
+		}
+		return
+	}
+	wg.real.Add(delta)
+}
+
+func (wg *WaitGroup) Done() { wg.Add(-1) }
+
+func (wg *WaitGroup) Wait() {
+	if s := simrt.InSim(); s != nil {
+		wg.mu.Lock()
+		zero := wg.n == 0
+		wg.mu.Unlock()
+		if zero {
+			return
+		}
+		s.Park(&simrt.Event{Key: s.OpKey("wg"), Class: "wg", Enabled: func() bool {
+			wg.mu.Lock()
+			defer wg.mu.Unlock()
+			return wg.n == 0
+		}})
+		return
+	}
+	wg.real.Wait()
+}
+
+func (wg *WaitGroup) Go(f func()) {
+	wg.Add(1)
+	simrt.Go(func() {
+		defer wg.Done()
+		f()
+	})
+}
